@@ -605,6 +605,23 @@ pub fn run(ctx: &Ctx) {
                 }
             }
         });
+        // attribute maps keyed by words with a conventional meaning, in several letter cases, alone and together
+        {
+            let words = ["txtvers", "TxtVers", "TXTVERS", "txtverS", "path", "Path", "PATH", "rp", "RP", "ty", "note", "Note", "pdl", "adminurl", "AdminURL", "u", "U", "priority", "UUID", "uuid"];
+            for (i, a) in words.iter().enumerate() {
+                for v in [None, Some(String::new()), Some("1".to_string())] {
+                    t.evals += 1;
+                    n += 1;
+                    ctx.violations(check_map(&[(a.to_string(), v.clone())]));
+                    let b2 = words[(i + 1) % words.len()];
+                    if !b2.eq_ignore_ascii_case(a) {
+                        t.evals += 1;
+                        n += 1;
+                        ctx.violations(check_map(&[(a.to_string(), v.clone()), (b2.to_string(), Some("x".to_string()))]));
+                    }
+                }
+            }
+        }
         // attribute maps whose keys and values are wrapped in each ASCII character
         for c in 0x20u8..0x7f {
             if c == b'=' {
